@@ -52,7 +52,7 @@ namespace rkcommon {
 
       inline T center() const
       {
-        return .5f * (lower + upper);
+        return T(.5 * (lower + upper));
       }
 
       inline void extend(const T &t)
